@@ -11,6 +11,7 @@ import (
 	"golang.org/x/exp/slices"
 
 	"github.com/mgtv-tech/redis-GunYu/config"
+	"github.com/mgtv-tech/redis-GunYu/pkg/common"
 	"github.com/mgtv-tech/redis-GunYu/pkg/log"
 	"github.com/mgtv-tech/redis-GunYu/pkg/metric"
 	"github.com/mgtv-tech/redis-GunYu/pkg/redis"
@@ -544,6 +545,10 @@ func (ri *RedisInput) readChannel(wait usync.WaitCloser, readerOffset StartPoint
 	reader, err := ri.channel.NewReader(readerOffset.ToOffset())
 	ri.logger.Debugf("channel.NewReader : offset(%v), err(%v)", readerOffset, err)
 	if err != nil {
+		if errors.Is(err, common.ErrCorrupted) {
+			// a cached file failed verification : the run loop drops the cache (ErrCorrupted)
+			err = errors.Join(ErrCorrupted, err)
+		}
 		wait.Close(err)
 		return nil
 	}
